@@ -195,6 +195,15 @@ class EnqueueUnit(Unit):
                           z3.And(z3.BoolVal(len(self.futs) == 1 and unbox_handle(ex, p) is self.futs[0]), s.ghost['writes'] == 2, s.ghost['put_done']))
                 ex.oblige(s, 'exit(accepted): uid-freshness invariant preserved (pointwise: a key not yet issued is absent)',
                           z3.Implies(self.kk >= s.ghost['next_uid'], z3.Select(self.ledger.arr(s), V.intv(self.kk)) == Absent))
+                # [C07] the deadline the waiter will use (_wait_for_result reads fut.data['deadline']) is entry time + the caller's timeout, exactly -- 0 included
+                from pyvc.core import DictVal, as_num
+                d = unbox_handle(ex, s.ghost['fut_data_assigned']) if 'fut_data_assigned' in s.ghost else None
+                if isinstance(d, DictVal) and 'deadline' in d.items and 't0' in d.items:
+                    t0v = d.items['t0']
+                    ex.oblige(s, 'exit(accepted): [C07] the request carries its deadline: time of entry + the caller\'s timeout, exactly (a timeout of 0 is 0), for the waiter to use',
+                              z3.And(d.items['deadline'] == t0v + self.timeout, t0v >= s.ghost['t_entry'], t0v <= s.ghost['clock']) if z3.is_expr(t0v) and z3.is_expr(d.items['deadline']) and t0v.sort() == z3.RealSort() and d.items['deadline'].sort() == z3.RealSort() else z3.BoolVal(False))
+                else:
+                    ex.oblige(s, 'exit(accepted): [C07] the request carries its deadline (fut.data has t0 and deadline)', False)
             elif k == 'raise':
                 ex.oblige(s, 'exit(rejected): only ServerBacklogFull, and the request leaves no trace (no write to the ledger or the input buffer)',
                           z3.And(V.isinst(p, 'ServerBacklogFull'), s.ghost['writes'] == 0, z3.Not(s.ghost['put_done'])))
@@ -530,6 +539,7 @@ class AGatherUnit(Unit):
     inlined_defs = ('notify',)
     ignore_stmts = (r"fut\.data\['t2'\] = .*",)
     canaries = (('resolved with something else than its own outcome', 'loop.call_soon_threadsafe(fut.set_result, y)', 'loop.call_soon_threadsafe(fut.set_result, uid)', 'own outcome'),
+                ('a falsy result (0, empty list, None) is never delivered', '            if not fut.cancelled():\n                if isinstance(y, RemoteException):', '            if not fut.cancelled() and y:\n                if isinstance(y, RemoteException):', 'exactly one resolution'),
                 ('exception scheduled as a result', 'loop.call_soon_threadsafe(fut.set_exception, y)', 'loop.call_soon_threadsafe(fut.set_result, y)', 'own outcome'),
                 ('slot not returned for abandoned requests', '            f = asyncio.run_coroutine_threadsafe(notify(), loop)', '            if fut.cancelled():\n                continue\n            f = asyncio.run_coroutine_threadsafe(notify(), loop)', 'one notification'),
                 ('resolution performed directly in the gather thread (raises when the caller cancelled)', 'loop.call_soon_threadsafe(fut.set_result, y)', 'fut.set_result(y)', ''))
@@ -653,6 +663,7 @@ class AGatherUnit(Unit):
         s2.ghost['popped_this'] = z3.BoolVal(False)
         s2.ghost['notified_this'] = z3.IntVal(0)
         s2.ghost['seen_cancelled'] = None
+        s2.ghost['cancelled_seen'] = ()
         return [s1, s2]
 
     def after_map_write(self, ex, st, m, kind, k, v, node):
@@ -669,12 +680,15 @@ class AGatherUnit(Unit):
             sched = s.ghost['sched']
             ex.oblige(s, 'iteration: [C06] every popped entry gives its slot back: exactly one notification per pop, for every outcome kind incl. cancelled futures', s.ghost['notified_this'] == z3.If(popped, 1, 0))
             if len(sched) == 0:
-                g = z3.BoolVal(True)        # nothing scheduled: the future was found cancelled (checked by the path: see cancelled() model) or the entry was missing
+                # nothing scheduled: only when the entry was missing, or the future WAS FOUND CANCELLED (some cancelled() call of this iteration answered True) --
+                # never because of what the outcome is (a falsy result -- 0, '', [], None -- is an outcome like any other)
+                seen = s.ghost.get('cancelled_seen', ())
+                g = z3.Implies(popped, z3.Or(*seen) if seen else z3.BoolVal(False))
             elif len(sched) == 1:
                 g = z3.And(popped, sched[0][1] == yy, z3.BoolVal(sched[0][0] == 'set_exception') == V.isinst(yy, 'BaseException'))
             else:
                 g = z3.BoolVal(False)
-            ex.oblige(s, 'iteration: [C02/C04] at most one resolution is scheduled, for the future of that uid, with its own outcome (exception as exception, RemoteException unwrapped)', g)
+            ex.oblige(s, 'iteration: [C02/C04] exactly one resolution is scheduled -- none only when the future was found cancelled or its entry was missing --, for the future of that uid, with its own outcome, whatever its value (exception as exception, RemoteException unwrapped)', g)
         sp = LoopSpec(inv=lambda s, ex: z3.Not(s.ghost['none_got']), keep=('q_out', 'pipeline', 'pipeline_notfull', 'notifications', 'notify'))
         sp.on_backedge = back
         return {0: sp}
